@@ -380,7 +380,9 @@ def _more_pitfalls(ctx, prop_id, files, by_name):
             # PARAM-1: a parameter that a function accepts and never reads
             if fi.is_abstract or _is_stub(fi.node):
                 continue
-            if fi.name in _value_referenced(p):
+            stubs_of = [g.name for g in list(p.functions.values()) + [m for c in p.classes.values() for m in c.methods.values()]
+                        if getattr(g, "forwards_to", None) == fi.qualname]
+            if fi.name in _value_referenced(p) or any(n_ in _value_referenced(p) for n_ in stubs_of):
                 continue          # handed around as a value (a table of builders, a callback): its signature is the table's
             reads = {n_.id for n_ in ast.walk(fi.node) if isinstance(n_, ast.Name) and isinstance(n_.ctx, ast.Load)}
             dead = [q.name for q in fi.params if q.name not in ("self", "cls") and not q.name.startswith("_")
